@@ -120,27 +120,39 @@ def mkPropMeta (name : String) (dt : Dtype) (varlen : Bool) : Outcome PropMeta :
   else if dt ∈ validDtypes ∧ dt ≠ .bytes then pure ⟨name, dt.name, some varlen⟩
   else throw .valueError
 
-/-- `create_props_metadata` (repaired, D15): returns the metadata and the property as it is written
-(float16 upcast applied). -/
-def createPropsMetadata (name : String) (p : PropArr) : Outcome (PropMeta × PropArr) :=
-  let p' := upcast p
-  match p'.values with
-  | .dense a => do pure (← mkPropMeta name a.dtype false, p')
+def isVarlen (p : PropArr) : Bool :=
+  match p.values with
+  | .obj _ => true
+  | .dense _ => false
+
+/-- the dtype `create_props_metadata` records: the array's, or — for an object array — the dtype of
+its first element (repaired, D15: `int64` for an empty one, the dtype of the empty `data` array the
+serialiser writes), after checking that all elements have it (else ValueError) -/
+def metaDtype : PVals → Outcome Dtype
+  | .dense a => pure a.dtype
   | .obj es =>
-    let dt := match es with | [] => Dtype.i64 | e :: _ => e.dtype
-    if es.all (fun e => e.dtype = dt) then do pure (← mkPropMeta name dt true, p')
+    if es.all (fun e => e.dtype = Geff.Vlen.dataDtype es) then pure (Geff.Vlen.dataDtype es)
     else throw .valueError
+
+/-- `create_props_metadata`: returns the metadata and the property as it is written (float16 upcast
+applied; Python writes the upcast array back into the caller's dict). -/
+def createPropsMetadata (name : String) (p : PropArr) : Outcome (PropMeta × PropArr) := do
+  let dt ← metaDtype (upcast p).values
+  let pm ← mkPropMeta name dt (isVarlen (upcast p))
+  pure (pm, upcast p)
 
 def lookupKey {β} (k : String) (l : List (String × β)) : Option β := (l.find? (fun kv => kv.1 = k)).map (·.2)
 
-/-- `add_or_update_props_metadata`: entries that exist keep their place and get the new dtype and
-varlength; new ones are appended in order. -/
+/-- an existing entry keeps its place and gets the dtype and varlength of the new entry of that name -/
+def updEntry (new : List PropMeta) (kv : String × PropMeta) : String × PropMeta :=
+  match new.find? (fun pm => pm.identifier = kv.1) with
+  | some pm => (kv.1, { kv.2 with dtype := pm.dtype, varlength := pm.varlength })
+  | none => kv
+
+/-- `add_or_update_props_metadata`: entries that exist are updated in place; new ones are appended in order. -/
 def addOrUpdate (existing : List (String × PropMeta)) (new : List PropMeta) : List (String × PropMeta) :=
-  let upd := existing.map (fun kv =>
-    match new.find? (fun pm => pm.identifier = kv.1) with
-    | some pm => (kv.1, { kv.2 with dtype := pm.dtype, varlength := pm.varlength })
-    | none => kv)
-  upd ++ (new.filter (fun pm => (lookupKey pm.identifier existing).isNone)).map (fun pm => (pm.identifier, pm))
+  existing.map (updEntry new) ++
+    (new.filter (fun pm => (lookupKey pm.identifier existing).isNone)).map (fun pm => (pm.identifier, pm))
 
 /-! ### node names -/
 
@@ -169,14 +181,30 @@ def writeIdArrays (s : St) (nodeIds edgeIds : NdArr) : Outcome St :=
     let s := setArray s [NODES] IDS nodeIds
     pure (setArray s [EDGES] IDS edgeIds)
 
+/-- what is stored for one property: `(values, data?)` — the array itself, or the serialised form -/
+def encodeProp (c : VlenCodec) (p : PropArr) : Outcome (NdArr × Option NdArr) :=
+  match p.values with
+  | .dense a => pure (a, none)
+  | .obj es => do
+    let (v, d) ← c.encode es
+    pure (v, some d)
+
+/-- `prop_group = props_group.create_group(prop)`, `prop_group["values"] = …`, and `missing` / `data`
+when there are any -/
+def storeProp (s : St) (q : Path) (values : NdArr) (missing data : Option NdArr) : St :=
+  let s := set s q (.group [])
+  let s := set s (q ++ [VALUES]) (.array values)
+  let s := match missing with
+    | some m => set s (q ++ [MISSING]) (.array m)
+    | none => s
+  match data with
+  | some d => set s (q ++ [DATA]) (.array d)
+  | none => s
+
 /-- the body of the loop of `write_props_arrays` for one property -/
 def writeProp (c : VlenCodec) (pre : Path) (s : St) (name : String) (p : PropArr) : Outcome (St × PropMeta) := do
   let (pm, p') ← createPropsMetadata name p
-  let (values, data) ← match p'.values with
-    | .dense a => pure (a, none)
-    | .obj es => do
-      let (v, d) ← c.encode es
-      pure (v, some d)
+  let (values, data) ← encodeProp c p'
   if name = "." ∨ name = ".." then throw .valueError
   if !validName name then throw (unmodelled "node-name")
   -- `props_group.create_group(prop)` refuses an existing node
@@ -184,15 +212,7 @@ def writeProp (c : VlenCodec) (pre : Path) (s : St) (name : String) (p : PropArr
   | some (.group _) => throw (.other "ContainsGroupError")
   | some (.array _) => throw (.other "ContainsArrayError")
   | none => pure ()
-  let s := set s (pre ++ [name]) (.group [])
-  let s := set s (pre ++ [name, VALUES]) (.array values)
-  let s := match p'.missing with
-    | some m => set s (pre ++ [name, MISSING]) (.array m)
-    | none => s
-  let s := match data with
-    | some d => set s (pre ++ [name, DATA]) (.array d)
-    | none => s
-  pure (s, pm)
+  pure (storeProp s (pre ++ [name]) values p'.missing data, pm)
 
 def writePropsLoop (c : VlenCodec) (pre : Path) : St → Props → Outcome (St × List PropMeta)
   | s, [] => pure (s, [])
@@ -307,6 +327,28 @@ structure Unsquish where
   node : Option (List (String × List String)) := none
   edge : Option (List (String × List String)) := none
 
+def writePropsOpt (c : VlenCodec) (s : St) (group : String) (ps : Option Props)
+    (uns : Option (List (String × List String))) : Outcome (St × List PropMeta) :=
+  match ps with
+  | some ps => writePropsArrays c s group ps uns
+  | none => pure (s, [])
+
+/-- `compute_and_add_axis_min_max` sees the caller's dict after the unsquish pre-pass mutated it -/
+def propsAfterUnsquish (nps : Option Props) (un : Option (List (String × List String))) : Outcome (Option Props) :=
+  match nps, un with
+  | some ps, some un => do pure (some (← unsquish ps un))
+  | x, _ => pure x
+
+/-- `write_arrays` after the id arrays: properties of both groups, metadata update, axis check,
+`metadata.write` -/
+def writeTail (c : VlenCodec) (s : St) (g : InMem) (md : CallerMeta) (u : Unsquish) : Outcome St := do
+  let nps := nodePropsToWrite g md
+  let r1 ← writePropsOpt c s NODES nps u.node
+  let r2 ← writePropsOpt c r1.1 EDGES g.edgeProps u.edge
+  let npsAfter ← propsAfterUnsquish nps u.node
+  checkAxes md.axes npsAfter
+  pure (writeMeta r2.1 ⟨md.directed, md.axes, addOrUpdate md.nodeProps r1.2, addOrUpdate md.edgeProps r2.2⟩)
+
 /-- `write_arrays` up to and including `metadata.write` -/
 def writeCore (c : VlenCodec) (s0 : St) (g : InMem) (md : CallerMeta) (u : Unsquish := {}) : Outcome St := do
   -- check_for_geff on a store object: the root group is opened in mode "a"
@@ -314,21 +356,7 @@ def writeCore (c : VlenCodec) (s0 : St) (g : InMem) (md : CallerMeta) (u : Unsqu
   if hasGeff s then throw .fileExists
   let s ← writeIdArrays s g.nodeIds g.edgeIds
   if g.nodeIds.len?.isNone then throw .typeError          -- len() of a 0-d array
-  let nps := nodePropsToWrite g md
-  let (s, nmeta) ← match nps with
-    | some ps => writePropsArrays c s NODES ps u.node
-    | none => pure (s, [])
-  let (s, emeta) ← match g.edgeProps with
-    | some ps => writePropsArrays c s EDGES ps u.edge
-    | none => pure (s, [])
-  let nodeMd := addOrUpdate md.nodeProps nmeta
-  let edgeMd := addOrUpdate md.edgeProps emeta
-  -- compute_and_add_axis_min_max sees the dict after the unsquish pre-pass mutated it
-  let npsAfter ← match nps, u.node with
-    | some ps, some un => do pure (some (← unsquish ps un))
-    | x, _ => pure x
-  checkAxes md.axes npsAfter
-  pure (writeMeta s ⟨md.directed, md.axes, nodeMd, edgeMd⟩)
+  writeTail c s g md u
 
 /-- `write_arrays` with `structure_validation=True`: a `ValueError` of the validator is re-raised
 (after `delete_geff`); `validate` is C04's model, a parameter here. -/
@@ -364,6 +392,7 @@ structure ZarrProp where
   values : NdArr
   missing : Option NdArr
   data : Option NdArr
+deriving Inhabited
 
 def optArray (s : St) (p : Path) : Outcome (Option NdArr) :=
   match get s p with
